@@ -16,8 +16,12 @@ import (
 // (certs / clientCA / verifyOptions) or a decision on the length of the new data. A path that
 // publishes the new spec while keeping the old derived material (e.g. the reload gated on
 // key AND cert both changing) serves a replaced certificate until something else changes.
-func c10R6(c *eng.Ctx) {
-	c.Rule("R6", "changed TLS material is reloaded: in syncSecureServingConfigLocked, from the edge where the old and new ClientCAData / KeyData / CertData differ, every path to the store of the new config passes a write of the derived material or a test on the new data's length", 3)
+func c10R6(c *eng.Ctx) { c10TLSReload(c, "R6") }
+
+// c10TLSReload is the rule body, registered as C10.R6 and (same obligation, other property) as
+// C11.R7: "TLS material is that of the latest object".
+func c10TLSReload(c *eng.Ctx, rule string) {
+	c.Rule(rule, "changed TLS material is reloaded: in syncSecureServingConfigLocked, from the edge where the old and new ClientCAData / KeyData / CertData differ, every path to the store of the new config passes a write of the derived material or a test on the new data's length", 3)
 	fn := c.MustMethod(pkgClusters, "ClusterInfo", "syncSecureServingConfigLocked")
 	if fn == nil {
 		return
@@ -32,7 +36,7 @@ func c10R6(c *eng.Ctx) {
 		}
 	}
 	if len(publish) == 0 {
-		c.Fail("R6", fn, "publication of the new config", fn.Pos(), "no store to currentSecureServingTLSConfig found")
+		c.Fail(rule, fn, "publication of the new config", fn.Pos(), "no store to currentSecureServingTLSConfig found")
 		return
 	}
 	isPublish := func(i ssa.Instruction) bool {
@@ -118,12 +122,12 @@ func c10R6(c *eng.Ctx) {
 		}
 		seen[f1]++
 		x := eng.ReachFromBlock(differs, eng.PathQuery{Target: isPublish, Avoid: isDecision})
-		c.Check("R6", fn, fmt.Sprintf("%s differs ⇒ material reloaded or new data examined", f1), iff.Pos(), x == nil,
+		c.Check(rule, fn, fmt.Sprintf("%s differs ⇒ material reloaded or new data examined", f1), iff.Pos(), x == nil,
 			"the new spec is published while the certificate/CA derived from the old "+f1+" is kept: the gateway keeps serving (or trusting) replaced TLS material for this cluster's names")
 	}
 	for _, f := range []string{"ClientCAData", "KeyData", "CertData"} {
 		if seen[f] == 0 {
-			c.Fail("R6", fn, f+" differs ⇒ material reloaded or new data examined", fn.Pos(), "the old and new "+f+" are never compared")
+			c.Fail(rule, fn, f+" differs ⇒ material reloaded or new data examined", fn.Pos(), "the old and new "+f+" are never compared")
 		}
 	}
 }
